@@ -21,9 +21,10 @@ def run_check(prop_id, tier, seed, repo=None):
         index = get_index(repo)
         res = mod.run(index, tier=tier, seed=seed)
         code = finish(res, tier, seed, t0)
-        if tier == "thorough" and code == 0 and hasattr(mod, "selftest"):
+        if tier == "thorough" and code == 0:
+            # thorough = quick + the checker self-test for this property (seeded faults must fire, rewrites stay silent)
             from .selftest import run_selftest
-            ok = run_selftest(prop_id, seed)
+            ok = run_selftest(prop_id, seed, repo=repo, verbose=False)
             if not ok:
                 print(f"SELFTEST-FAIL property={prop_id}")
                 return 2
